@@ -255,4 +255,27 @@ example : parseInt (-128) 127 (formatInt (-128)) = some (-128) ∧
 theorem bool_text_roundtrip (b : Bool) : parseBool (formatBool b) = some b := by
   cases b <;> decide
 
+
+/-! ## 5. DataType display → parse -/
+
+/-- **A displayed data type parses back to the same data type** — proved by structural
+induction for the recursive fragment `Frag`: primitive type names, `Decimal32/64/128/256(p, s)`
+(with the parser's precision/scale validation), `Dictionary(k, v)` and
+`List/LargeList/ListView/LargeListView(field)` with any nullability and any element field name,
+nested to any depth.  `display t = render (toks t)`; the statement is about the parser on the
+token sequence.  *Partial*: (a) the remaining constructors (Timestamp, Time, Duration, Interval,
+FixedSizeBinary, FixedSizeList, Struct, Map, RunEndEncoded, Union) are modelled and
+correspondence-tested but not covered by this theorem; (b) `tokenize (render ts) = ts` is
+correspondence-tested only. -/
+theorem dtype_display_parse_partial (t : DT.DType) (h : DT.Frag t) : DT.parse (DT.toks t) = some t :=
+  DT.parse_toks t h
+
+/-- non-vacuity: `Dictionary(Int32, List(non-null Decimal128(10, 2), field: 'x'))` is in the fragment -/
+example : DT.Frag (.dictionary (.simple "Int32") (.list "List" false (.decimal "Decimal128" 10 2) "x")) ∧
+    DT.display (.dictionary (.simple "Int32") (.list "List" false (.decimal "Decimal128" 10 2) "x"))
+      = "Dictionary(Int32, List(non-null Decimal128(10, 2), field: 'x'))" := by
+  constructor
+  · simp [DT.Frag, DT.simpleNames, DT.listKinds, DT.decimalNames]; decide
+  · decide
+
 end ArrowModel.C13
